@@ -113,10 +113,18 @@ def features(q):
             withs_left -= 1
             items = re.split(r",\s*(?![^()]*\))", re.split(r"\border by\b|\bskip\b|\blimit\b", text)[0])
             newb = set()
+            carried = set()        # variables this WITH has already exported under their own name (`v` / `v as v`)
             for it in items:
                 it = it.strip()
                 it = re.sub(r"^distinct\s+", "", it)
                 m = re.match(r"^(.*?)\s+as\s+([a-z_][a-z0-9_]*)$", it)
+                if m and m.group(1).strip() == m.group(2):
+                    carried.add(m.group(2))
+                elif m and m.group(1).strip() in carried:
+                    # `with v, v as w`: the variable is exported under its own name and AFTER that again under a second name
+                    f.add("with-variable-carried-then-renamed")
+                elif not m and re.fullmatch(r"[a-z_][a-z0-9_]*", it):
+                    carried.add(it)
                 if m:
                     src, al = m.group(1).strip(), m.group(2)
                     if src in paths and al != src:
